@@ -70,7 +70,7 @@ def rows_of_multiset(combo, levels=(0.0, 1.0, 2.0)):
     return g, y, s
 
 
-SCORE_FAMILIES = ["few_levels", "rationals", "gauss", "huge", "tiny_gaps", "probabilities", "constant_in_group"]
+SCORE_FAMILIES = ["few_levels", "rationals", "gauss", "huge", "tiny_gaps", "probabilities", "constant_in_group", "ladder", "ladder"]
 
 
 def random_dataset(rng, family=None, kmax=5, nmax=40, max_levels=None):
@@ -99,6 +99,12 @@ def random_dataset(rng, family=None, kmax=5, nmax=40, max_levels=None):
         s = rng.normal(size=n) * 10.0 ** int(rng.integers(3, 200)) * rng.choice([-1, 1])
     elif family == "tiny_gaps":
         s = 1.0 + rng.integers(0, 4, size=n) * 1e-9
+    elif family == "ladder":
+        # distinct scores on a geometric ladder base*(1 - j*delta), delta log-uniform over ten decades: near-ties at every
+        # scale (any tolerance-based tie detection has its boundary somewhere in this range)
+        base = float(gen.pick(rng, [1.0, 0.7, 1000.0, -3.0, 1e-3, 0.9999]))
+        delta = 10.0 ** rng.uniform(-12, -2)
+        s = base * (1.0 - rng.integers(0, 6, size=n) * delta)
     elif family == "probabilities":
         s = np.clip(rng.beta(0.6, 0.6, size=n), 0, 1)
     else:
